@@ -28,6 +28,9 @@ class Schema:
     fn: Callable
     trigger: tuple = ()
     pair_from: tuple = ()      # binary reference schemas: only pairs coming from membership atoms on these functions (name prefixes)
+    filter: bool = False       # universe-driven instances are kept per conjunct, and only when one of the conjunct's own
+                               # applications over the instantiation term already occurs in the query (E-matching style);
+                               # opt-in, for schemas that are conjunctions of independent "nobody refers to r" style facts
 
 
 @dataclass
@@ -50,6 +53,8 @@ class Outcome:
     facts: list = field(default_factory=list)         # extra ground facts about the result (assumed by callers, proved by the body)
     out: z3.ExprRef | None = None                     # generators: the yielded sequence
     fact_schemas: list = field(default_factory=list)  # quantified facts about the result (proved by the body, assumed by callers)
+    may: bool = False      # an abnormal end that MAY happen whenever cond holds (resource exhaustion: RecursionError), next to the
+                           # deterministic outcomes: callers must cope with it, the body may end this way, nobody has to
 
 
 @dataclass
